@@ -107,6 +107,11 @@ def profile(**over) -> Dict[str, Any]:
     return p
 
 
+# tariffs per kWh: free, cheap ... expensive, and a negative one (surplus-power windows exist in time-of-use tables; the
+# loader takes any float): the station then pays the vehicle
+PRICES = st.sampled_from([0.0, 0.05, 0.3, 0.6, 2.5, -0.1])
+
+
 @st.composite
 def st_world(draw, prof: Optional[Dict[str, Any]] = None) -> Dict[str, Any]:
     p = prof or DEFAULT_PROFILE
@@ -212,7 +217,7 @@ def st_world(draw, prof: Optional[Dict[str, Any]] = None) -> Dict[str, Any]:
             for when in whens:
                 for s in stations:
                     for c, _, _ in s["plugs"]:
-                        prices.append([start + when * dt if when else 0, s["id"], c, draw(st.sampled_from([0.0, 0.05, 0.3, 0.6, 2.5]))])
+                        prices.append([start + when * dt if when else 0, s["id"], c, draw(PRICES)])
         else:
             # the same complete tariff, keyed by region: one row per (enclosing cell at the search resolution or one coarser, plug type)
             import h3
@@ -226,7 +231,7 @@ def st_world(draw, prof: Optional[Dict[str, Any]] = None) -> Dict[str, Any]:
             for when in whens:
                 for cell in sorted(cells):
                     for c in sorted(cells[cell]):
-                        prices.append([start + when * dt if when else 0, cell, c, draw(st.sampled_from([0.0, 0.05, 0.3, 0.6, 2.5]))])
+                        prices.append([start + when * dt if when else 0, cell, c, draw(PRICES)])
     rate = draw(st.sampled_from([None, [2.2, 1.6, 5.0], [0.0, 3.0, 0.0], [1.0, 0.0, 7.5]]))
     disp = {
         "matching_range_km_threshold": draw(st.sampled_from([20, 1, 5])),
@@ -344,7 +349,7 @@ def write_world(w: Dict[str, Any], d: Path, end_steps: int = 2000) -> Path:
         inp["schedules_file"] = "schedules.csv"
     if w.get("prices") is not None:
         key = w.get("price_key", "station_id")
-        (d / "prices.csv").write_text(f"time,{key},charger_id,price_kwh\n" + "".join(f"{t},{k},{c},{p}\n" for t, k, c, p in w["prices"]))
+        (d / "prices.csv").write_text(f"time,{key},charger_id,price_kwh\n" + "".join(f"{(w.get('price_time_text') or {}).get(str(i), t)},{k},{c},{p}\n" for i, (t, k, c, p) in enumerate(w["prices"])))
         inp["charging_price_file"] = "prices.csv"
     if w.get("rate"):
         (d / "rate.csv").write_text("base_price,price_per_mile,minimum_price\n%s,%s,%s\n" % tuple(w["rate"]))
@@ -381,7 +386,8 @@ def osm_init(config, sim, env):
 
 
 def load_scenario(scenario: Path, gens: Optional[Sequence[Any]] = None, real_handlers: bool = False,
-                  out_dir: Optional[Path] = None, lazy: Optional[bool] = None, builtin_first: bool = False):
+                  out_dir: Optional[Path] = None, lazy: Optional[bool] = None, builtin_first: bool = False,
+                  log_types: Optional[Sequence[str]] = None):
     """Load a scenario file through HIVE's public loader -> RunnerPayload."""
     from nrel.hive.initialization.initialize_simulation import default_init_functions
     from nrel.hive.initialization.load import load_config, load_simulation
@@ -391,6 +397,10 @@ def load_scenario(scenario: Path, gens: Optional[Sequence[Any]] = None, real_han
         g = cfg.global_config
         if real_handlers:
             g = g._replace(log_events=True, log_stats=True)
+            if log_types is not None:  # the user's choice of logged report types (log_sim_config of .hive.yaml)
+                from nrel.hive.reporting.reporter import ReportType
+
+                g = g._replace(log_sim_config={ReportType.from_string(t) for t in log_types})
         if lazy is not None:
             g = g._replace(lazy_file_reading=bool(lazy))
         out = Path(out_dir) if out_dir else Path(scenario).parent / "out"
@@ -444,7 +454,7 @@ class World:
         try:
             self.scenario = write_world(spec, self.dir, end_steps=end_steps)
             self.rp = load_scenario(self.scenario, gens=gens, real_handlers=real_handlers, lazy=spec.get("lazy"),
-                                    builtin_first=builtin_first)
+                                    builtin_first=builtin_first, log_types=spec.get("log_types"))
         except BaseException:
             shutil.rmtree(self.dir, ignore_errors=True)
             raise
